@@ -30,13 +30,18 @@ def showEv : ChanEv → String
   | .close => "C"
   | .msg d => "M" ++ showBytes d
 
-def showChan (c : Chan) : String :=
-  s!"ch{c.id}:{c.state}:" ++ (if c.events.isEmpty then "-" else ",".intercalate (c.events.map showEv))
+def showOptU16 : Option UInt16 → String
+  | none => "-"
+  | some v => toString v
 
-def showAct : Act → String
-  | .dcepAck sid => s!"ack{sid}"
-  | .dcepOpen sid => s!"open{sid}"
-  | .newChannel sid => s!"new{sid}"
+def showChan (c : Chan) : String :=
+  s!"ch{c.id}:{c.state}:" ++ (if c.events.isEmpty then "-" else ",".intercalate (c.events.map showEv)) ++
+    (if c.negotiated then "" else s!":o{b01 c.ordered}:r{showOptU16 c.maxRetransmits}:t{showOptU16 c.maxLifetime}:{hex c.label}:{hex c.protocol}")
+
+def showAct : Act → Option String
+  | .dcepAck sid => some s!"ack{sid}"
+  | .dcepOpen sid => some s!"open{sid}"
+  | .newChannel _ => none
 
 /-! ### function-level streams -/
 
@@ -136,12 +141,16 @@ def parseChanCfg (t : String) : Option Chan :=
   match fields t with
   | ["ch", id, ord, neg, st] => do
     some { id := ← u16? id, ordered := ord = "1", negotiated := neg = "1", state := ← st.toNat? }
+  | ["ch", id, ord, neg, st, mr, ml, lab, pro] => do
+    some { id := ← u16? id, ordered := ord = "1", negotiated := neg = "1", state := ← st.toNat?,
+           maxRetransmits := ← optU16? mr, maxLifetime := ← optU16? ml, label := ← unhex lab, protocol := ← unhex pro }
   | _ => none
 
 def showEp (e : Ep) : String :=
   let rq := showU32s (sortKeys (e.rx.rq.map (·.1)))
   let chans := if e.rx.pl.chans.isEmpty then "-" else " ".intercalate (e.rx.pl.chans.map showChan)
-  let acts := if e.rx.pl.acts.isEmpty then "-" else ",".intercalate (e.rx.pl.acts.map showAct)
+  let al := e.rx.pl.acts.filterMap showAct
+  let acts := if al.isEmpty then "-" else ",".intercalate al
   let st := match e.state with | .new => "new" | .connecting => "connecting" | .connected => "connected" | .closed => "closed"
   s!"| cum={e.rx.cum} rq={rq} st={st} | {chans} | {acts}"
 
@@ -160,30 +169,31 @@ def doRx (args : List String) : String :=
         | none => "bad-chan"
         | some chans =>
           let e0 : Ep := { rx := { cum := 0, localRwnd := rw, pl := { chans := chans } } }
-          let rec go (e : Ep) (evs : List String) (acc : List String) : Ep × List String :=
+          let rec go (e : Ep) (evs : List String) : Ep × Option String :=
             match evs with
-            | [] => (e, acc.reverse)
+            | [] => (e, none)
             | t :: more =>
-              if e.cleaned then (e, acc.reverse)
-              else if t = "L" then go (loopTop e) more acc
-              else if t = "W" then
-                let r := transmitSack e.rx
-                let e1 := { e with rx := r.2 }
-                match r.1 with
-                | some k => go e1 more (showSack k :: acc)
-                | none => go e1 more acc
+              if e.cleaned then (e, none)
+              else if t = "L" then go (loopTop e) more
+              else if t = "W" then go (onTransmitMark e) more
               else match fields t with
                 | ["R", hx] =>
                   match unhex hx with
-                  | some p => go (handlePacket e p) more acc
-                  | none => (e, ("bad-hex" :: acc).reverse)
+                  | some p => go (handlePacket e p) more
+                  | none => (e, some "bad-hex")
+                | ["X", id] =>
+                  match u16? id with
+                  | some id => go (closeDataChannel e id) more
+                  | none => (e, some "bad-ev")
                 | ["T", hx] =>
                   match unhex hx with
-                  | some p => go (noteTx e p) more acc
-                  | none => (e, ("bad-hex" :: acc).reverse)
-                | _ => (e, ("bad-ev" :: acc).reverse)
-          let r := go e0 evs []
-          (if r.2.isEmpty then "-" else " ".intercalate r.2) ++ " " ++ showEp r.1
+                  | some p => go (noteTx e p) more
+                  | none => (e, some "bad-hex")
+                | _ => (e, some "bad-ev")
+          let r := go e0 evs
+          match r.2 with
+          | some err => err
+          | none => (if r.1.sacks.isEmpty then "-" else " ".intercalate (r.1.sacks.map showSack)) ++ " " ++ showEp r.1
     | _ => "bad-cfg"
   | _ => "bad-args"
 
